@@ -2,6 +2,11 @@
 
 package z
 
+import (
+	"reflect"
+	"unsafe"
+)
+
 // White-box additions for C19: exact deep copies of a live filter (every private field plus
 // the bitset), so that the explicit-state search can branch from a state without replaying
 // its history. No logic of the filter is duplicated.
@@ -18,4 +23,68 @@ func VerifBloomCopyInto(dst, src *Bloom) {
 	bs := append(dst.bitset[:0], src.bitset...)
 	*dst = *src
 	dst.bitset = bs
+}
+
+// Unknown fields of Bloom (a filter that gained private state): their raw bytes take part in the
+// state keys of C18 / C19 and are restored along with the known state when they are plain data.
+var verifBloomExtraFields, verifBloomExtraNames, verifBloomExtraPlain = verifUnknownFields(reflect.TypeOf(Bloom{}),
+	"bitset", "ElemNum", "sizeExp", "size", "setLocs", "shift")
+
+type verifField struct{ off, size uintptr }
+
+func verifIsPlain(tp reflect.Type) bool {
+	switch tp.Kind() {
+	case reflect.Bool, reflect.Int, reflect.Int8, reflect.Int16, reflect.Int32, reflect.Int64,
+		reflect.Uint, reflect.Uint8, reflect.Uint16, reflect.Uint32, reflect.Uint64, reflect.Uintptr,
+		reflect.Float32, reflect.Float64, reflect.Complex64, reflect.Complex128:
+		return true
+	case reflect.Array:
+		return verifIsPlain(tp.Elem())
+	case reflect.Struct:
+		for i := 0; i < tp.NumField(); i++ {
+			if !verifIsPlain(tp.Field(i).Type) {
+				return false
+			}
+		}
+		return true
+	}
+	return false
+}
+
+func verifUnknownFields(tp reflect.Type, known ...string) (fs []verifField, names []string, plain bool) {
+	plain = true
+	for i := 0; i < tp.NumField(); i++ {
+		f := tp.Field(i)
+		isKnown := false
+		for _, k := range known {
+			isKnown = isKnown || k == f.Name
+		}
+		if isKnown {
+			continue
+		}
+		names = append(names, tp.Name()+"."+f.Name)
+		fs = append(fs, verifField{f.Offset, f.Type.Size()})
+		plain = plain && verifIsPlain(f.Type)
+	}
+	return
+}
+
+// VerifBloomExtraInfo names the unknown fields of Bloom and says whether all are plain data.
+func VerifBloomExtraInfo() ([]string, bool) { return verifBloomExtraNames, verifBloomExtraPlain }
+
+// VerifBloomExtra appends the raw bytes of the unknown fields of b to dst.
+func VerifBloomExtra(dst []byte, b *Bloom) []byte {
+	for _, f := range verifBloomExtraFields {
+		dst = append(dst, unsafe.Slice((*byte)(unsafe.Add(unsafe.Pointer(b), f.off)), f.size)...)
+	}
+	return dst
+}
+
+// VerifBloomSetExtra writes bytes read by VerifBloomExtra back; returns the rest of src.
+func VerifBloomSetExtra(b *Bloom, src []byte) []byte {
+	for _, f := range verifBloomExtraFields {
+		copy(unsafe.Slice((*byte)(unsafe.Add(unsafe.Pointer(b), f.off)), f.size), src[:f.size])
+		src = src[f.size:]
+	}
+	return src
 }
